@@ -343,9 +343,75 @@ class SkipStep(Exception):
     pass
 
 
+# ---- hidden aliasing and side effects: observables of a step beyond its result
+# A result that secretly is a view of (or the same buffer as) a block of an operand is indistinguishable by value
+# until a LATER in-place operation writes through it.  Therefore after every step (a) the relation "tensors i and j
+# own blocks with common memory" over ALL live tensors and (b) the set of live tensors whose observable value changed
+# during the step are recorded; harness/c04.py diffs both between the configurations.
+
+def _byte_bounds(b):
+    lo = hi = int(b.ctypes.data)
+    for n, s in zip(b.shape, b.strides):
+        if s < 0:
+            lo += (n - 1) * s
+        else:
+            hi += (n - 1) * s
+    return lo, hi + b.itemsize
+
+
+def share_pairs(groups):
+    """groups: {key: [ndarray...]} -> sorted list of pairs [k1, k2] (k1 < k2) owning blocks with at least one common byte"""
+    iv = []
+    for k, blocks in groups.items():
+        for b in blocks:
+            if isinstance(b, np.ndarray) and b.size > 0:
+                lo, hi = _byte_bounds(b)
+                iv.append((lo, hi, k, b))
+    iv.sort(key=lambda t: (t[0], t[1]))
+    out = set()
+    active = []
+    for lo, hi, k, b in iv:
+        active = [t for t in active if t[1] > lo]
+        for lo2, hi2, k2, b2 in active:
+            pair = (min(k, k2), max(k, k2))
+            if k2 != k and pair not in out:
+                try:
+                    sh = bool(np.shares_memory(b, b2, max_work=100000))
+                except Exception:
+                    sh = True
+                if sh:
+                    out.add(pair)
+        active.append((lo, hi, k, b))
+    return [list(p) for p in sorted(out)]
+
+
+def value_fp(a):
+    """fingerprint of the observable value of a tensor (block set, entries, dtype, labels, qtotal, leg charges); used only
+    to compare a tensor with ITSELF at an earlier time in the same interpreter"""
+    h = hashlib.sha1()
+    try:
+        qd = np.asarray(a._qdata)
+        rows = [tuple(int(x) for x in r) for r in qd]
+        for i in sorted(range(len(rows)), key=lambda i: rows[i]):
+            b = np.asarray(a._data[i])
+            h.update(repr((rows[i], b.shape, str(b.dtype))).encode())
+            h.update(np.ascontiguousarray(b).tobytes())
+        h.update(repr((str(a.dtype), list(a._labels), [int(x) for x in a.qtotal], int(a.rank))).encode())
+        for l in a.legs:
+            h.update(np.ascontiguousarray(l.charges).tobytes() + np.ascontiguousarray(l.slices).tobytes() + bytes([l.qconj % 256]))
+    except Exception as e:
+        h.update(('BROKEN:' + type(e).__name__).encode())
+    return h.hexdigest()[:16]
+
+
+def live_arrays(env):
+    return {i: r for i, r in enumerate(env.regs) if isinstance(r, npc.Array)}
+
+
 def run_program(case):
     env = Env(case)
     out = []
+    fps = {}
     for st in case['steps']:
         rec = {}
         before = {}
@@ -398,8 +464,24 @@ def run_program(case):
             rec['error'] = type(e).__name__
             rec['msg'] = str(e)[:160]
         env.regs.append(res)
+        # observables beyond the result: which OTHER live tensors changed their value, which pairs share block memory
+        live = live_arrays(env)
+        try:
+            now = {i: value_fp(r) for i, r in live.items()}
+            target = st.get('a') if st['op'] in INPLACE else None
+            changed = sorted(i for i in fps if i in now and now[i] != fps[i] and i != target)
+            rec['changed'] = changed
+            if target is not None:
+                rec['target'] = target
+            side = {str(i): observe(live[i]) for i in changed}
+            if side:
+                rec['side_effects'] = side
+            fps = now
+            rec['shares'] = share_pairs({i: list(r._data) for i, r in live.items()})
+        except Exception as e:
+            rec['alias_err'] = type(e).__name__ + ': ' + str(e)[:120]
         out.append(rec)
-    final = [observe(r) if isinstance(r, npc.Array) else None for r in env.regs]
+    final =[observe(r) if isinstance(r, npc.Array) else None for r in env.regs]
     return {'steps': out, 'final': final}
 
 
@@ -521,9 +603,16 @@ def run_merge(c):
         x = int(v[0])
         i, j = x % MARK - 1, x // MARK - 1
         tags.append([0, i, j] if (i >= 0 and j >= 0) else ([1, i, 0] if i >= 0 else [2, 0, j]))
-    return {'aq': aq, 'bq': bq, 'shape': shape, 'q': q, 'tags': tags, 'ok': bool(ok),
-            'b_unchanged': np.asarray(b._qdata).tolist() == bq and all(bool(np.all(x == MARK * (j + 1))) for j, x in enumerate(b._data)),
-            'sorted_flag': bool(a._qdata_sorted), 'dtype': str(a.dtype)}
+    out = {'aq': aq, 'bq': bq, 'shape': shape, 'q': q, 'tags': tags, 'ok': bool(ok),
+           'b_unchanged': np.asarray(b._qdata).tolist() == bq and all(bool(np.all(x == MARK * (j + 1))) for j, x in enumerate(b._data)),
+           'sorted_flag': bool(a._qdata_sorted), 'dtype': str(a.dtype)}
+    # the sum must own its blocks: no common memory with the second operand, and a later in-place operation on the sum
+    # (what Lanczos / the mixers do with the result) leaves the operand alone
+    out['shares_b'] = bool(share_pairs({0: list(a._data), 1: list(b._data)}))
+    a.iscale_prefactor(2.)
+    out['b_unchanged_after_scale'] = np.asarray(b._qdata).tolist() == bq and \
+        all(bool(np.all(x == MARK * (j + 1))) for j, x in enumerate(b._data))
+    return out
 
 
 # ---- tie of Model/KernelsPyCy3.v itranspose_* : the full state before and after Array.itranspose
